@@ -224,6 +224,9 @@ class MediaRequestBase(RequestHandlerBase):
             # remove any sidx box as it has a baseMediaDecodeTime and it's
             # an optional index
             del atom.sidx
+            # a sidx box in front of the moof box means that the moof
+            # box has now moved
+            moof_modified = True
         except AttributeError:
             pass
 
